@@ -192,7 +192,7 @@ flenp_buffer_encode_n(const LengthPrefixKind k,
         return -EINVAL;
     }
     const int rc = flenp_memory_encode(k, lpb, b->data + b->offset, n);
-    b->offset += rest;
+    b->offset += n;
     return rc;
 }
 
@@ -256,19 +256,19 @@ ssize_t
 flenp_buffer_to_sink(const LengthPrefixKind k, Sink *sink, ByteBuffer *b)
 {
     return flenp_memory_to_sink(k, sink, b->data + b->offset,
-                                byte_buffer_avail(b));
+                                byte_buffer_rest(b));
 }
 
 ssize_t
 flenp_buffer_to_sink_n(const LengthPrefixKind k,
                        Sink *sink, ByteBuffer *b, size_t n)
 {
-    const size_t rest = byte_buffer_avail(b);
+    const size_t rest = byte_buffer_rest(b);
     if (n > rest) {
         return -EINVAL;
     }
-    const int rc = flenp_memory_to_sink(k, sink, b->data + b->offset, rest);
-    b->offset += rest;
+    const int rc = flenp_memory_to_sink(k, sink, b->data + b->offset, n);
+    b->offset += n;
     return rc;
 }
 
@@ -366,11 +366,11 @@ flenp_buffer_from_source(const LengthPrefixKind k,
                          Source *source, ByteBuffer *b)
 {
     const ssize_t rc =
-        flenp_memory_from_source(k, source, b->data + b->offset,
+        flenp_memory_from_source(k, source, b->data + b->used,
                                  byte_buffer_avail(b));
 
     if (rc >= 0) {
-        b->offset += rc;
+        b->used += rc;
     }
 
     return rc;
